@@ -9,10 +9,82 @@ sys.path.insert(0, os.path.dirname(os.path.dirname(os.path.abspath(__file__))))
 from vf.core import *
 from vf import routes, progset
 
+# ---- heap shapes the program pools do not contain (added after seeded change C09-mark-tail-recursion, which only shows when a
+# ---- collection runs while a chain of more than ~75 000 cells linked through their last word is live).  The expected output
+# ---- is computed here, so these programs are also checked against their definition, not only against the unforced run.
+HEAD = '#include "aldor"\n#include "aldorio"\nmacro MI == MachineInteger;\nimport from MI, List MI, List List MI, Array MI, Array List MI;\n'
+def shape_longlist(N):
+    text = HEAD + """keep: List MI := empty;
+i: MI := %d;
+while i > 0 repeat { keep := cons(i rem 9973, keep); i := i - 1; }
+junk: MI := 0;
+for r in 1..120 repeat {
+	t: List MI := empty;
+	for k in 1..2000 repeat t := cons(k + r, t);
+	junk := (junk + first t) rem 1000003;
+}
+s: MI := 0; n: MI := 0;
+for x in keep repeat { s := (3 * s + x) rem 1000003; n := n + 1; }
+stdout << n << " " << junk << " " << s << newline;
+""" % N
+    junk = 0
+    for r in range(1, 121): junk = (junk + 2000 + r) % 1000003
+    s_ = 0
+    for i in range(1, N + 1): s_ = (3 * s_ + i % 9973) % 1000003
+    return {'name': 'shape:longlist-%d' % N, 'lib': 'aldor', 'text': text, 'inc': None, 'expected': ('%d %d %d\n' % (N, junk, s_), 'ok'), 'g': None, 'shape': True}
+def shape_listoflists(R, C):
+    text = HEAD + """ll: List List MI := empty;
+for r in 1..%d repeat {
+	t: List MI := empty;
+	for k in 1..%d repeat t := cons((k * r) rem 1009, t);
+	ll := cons(t, ll);
+	g: List MI := [j for j in 1..50];
+}
+s: MI := 0;
+for l in ll repeat for x in l repeat s := (s + x) rem 1000003;
+stdout << #ll << " " << s << newline;
+""" % (R, C)
+    s_ = 0
+    for r in range(1, R + 1):
+        for k in range(1, C + 1): s_ = (s_ + (k * r) % 1009) % 1000003
+    return {'name': 'shape:listoflists-%dx%d' % (R, C), 'lib': 'aldor', 'text': text, 'inc': None, 'expected': ('%d %d\n' % (R, s_), 'ok'), 'g': None, 'shape': True}
+def shape_arrayoflists(N):
+    text = HEAD + """a: Array List MI := new(%d, empty);
+for i in 0..%d repeat { a.i := [i, i + 1, i rem 7]; }
+for r in 1..40000 repeat { t: List MI := [r, r, r]; }
+s: MI := 0;
+for i in 0..%d repeat for x in a.i repeat s := (s + x) rem 1000003;
+stdout << #a << " " << s << newline;
+""" % (N, N - 1, N - 1)
+    s_ = 0
+    for i in range(N): s_ = (s_ + i + i + 1 + i % 7) % 1000003
+    return {'name': 'shape:arrayoflists-%d' % N, 'lib': 'aldor', 'text': text, 'inc': None, 'expected': ('%d %d\n' % (N, s_), 'ok'), 'g': None, 'shape': True}
+
+def shape_recordchain(N):
+    """a chain linked through the FIRST field of its records (recorded finding: the collector marks recursively and only the last
+    word of a block is followed without recursion, so such a chain of more than ~75 000 nodes overflows the C stack)"""
+    text = HEAD.replace('import from MI,', 'import from Pointer, MI,') + """R ==> Record(nxt: Pointer, v: MI);
+import from R;
+head: R := [nil, 0];
+for i in 1..%d repeat head := [head pretend Pointer, i];
+junk: MI := 0;
+for r in 1..200 repeat {
+	t: List MI := empty;
+	for k in 1..2000 repeat t := cons(k + r, t);
+	junk := (junk + first t) rem 1000003;
+}
+n: MI := 0; s: MI := 0;
+p: R := head;
+while not nil?(p.nxt) repeat { n := n + 1; s := (s + p.v) rem 1000003; p := (p.nxt) pretend R; }
+stdout << n << " " << s << newline;
+""" % N
+    return {'name': 'shape:recordchain-first-field-%d' % N, 'lib': 'aldor', 'text': text, 'inc': None, 'expected': ('%d %d\n' % (N, (N * (N + 1) // 2) % 1000003), 'ok'), 'g': None, 'shape': True}
+
 def main():
     ctx = Ctx('C09', 'exploration', variants=('plain',))
     b = ctx.b
     progs, disc = progset.pool(b, ctx, ctx.q(14, 120), ctx.q(10, 150), ctx.q(12, 200), 'C09')
+    progs = progs + [shape_longlist(ctx.q(300000, 1000000)), shape_listoflists(ctx.q(2000, 6000), 100), shape_arrayoflists(ctx.q(60000, 200000)), shape_recordchain(300000)]
     LEVELS = ['-Q0', '-Q2', '-Q9'] if ctx.tier == 'thorough' else ['-Q1', '-Q2']
     base = ctx.tmp('w')
     def work(j):
@@ -40,6 +112,9 @@ def main():
             na = s0['allocs']
             scheds = [('natural', {'GC_GEFN': '1', 'GC_GEFD': '1', 'GC_GGFN': '11', 'GC_GGFD': '10'})]
             nk = ctx.q(5, 24)
+            if pr.get('shape'):      # few collections, each with the whole structure live
+                nk = 0
+                for div in (7, 23): scheds.append(('k=%d' % max(1000, na // div), {'ALDOR_VERIF_GC': '%d:%d' % (max(1000, na // div), 17)}))
             for _ in range(nk):
                 if route == 'exe':
                     k = r.choice([1, 1, 2, 3, 5, 7, 11, 16, 50, 100, 333, 1000]); jj = r.randrange(k)
@@ -56,28 +131,35 @@ def main():
                 res.append((route, tag, p0, o0, p, o, st))
         shutil.rmtree(d, ignore_errors=True)
         return j, lv, res
-    n = 0; forced = 0; natural_gcs = 0; per = {}
+    n = 0; forced = 0; natural_gcs = 0; per = {}; shp = {}
     for j, lv, res in pmap(work, range(len(progs))):
         pr = progs[j]
         for route, tag, p0, o0, p, o, st in res:
             n += 1; forced += st['forced']
+            if pr.get('shape'): shp.setdefault(pr['name'], []).append('%s %s: %d allocations, %d forced collections, %s' % (route, tag, st['allocs'], st['forced'], p.cause))
             if tag == 'natural' and st['gcbytes'] > 0: natural_gcs += 1
             per[route] = per.get(route, 0) + 1
             files = {'x.as': pr['text'], 'case.txt': '%s %s route %s schedule %s\nunforced: %s\nforced: %s\n--- unforced output\n%s\n--- forced output\n%s\n%s' % (
                 pr['name'], lv, route, tag, p0.cause, p.cause, o0[-1500:].decode(errors='replace'), o[-1500:].decode(errors='replace'), p.err[-800:].decode(errors='replace'))}
-            cls = ('natural' if tag == 'natural' else 'forced') + ':' + (pr['name'] if pr['name'].startswith('corpus:') else 'generated')
+            cls = ('natural' if tag == 'natural' else 'forced') + ':' + (pr['name'] if pr['name'].startswith('corpus:') else 'shape' if pr.get('shape') else 'generated')
             if p.timeout: ctx.violation('hang:%s:%s' % (route, cls), '%s %s %s' % (pr['name'], lv, tag), files); continue
             f0 = p0.xclass == 'signal' or bool(fault_text(p0) and 'Unhandled' not in fault_text(p0))
             f1 = p.xclass == 'signal' or bool(fault_text(p) and 'Unhandled' not in fault_text(p))
             if f1 and not f0:
                 ctx.violation('storage-fault:%s:%s' % (route, cls), '%s %s under %s: %s %s' % (pr['name'], lv, tag, p.cause, fault_text(p)), files); continue
+            if f0 and pr.get('shape'):
+                if tag == 'natural': ctx.violation('shape-program-faults:%s:%s' % (route, pr['name']), '%s %s: the unforced run ends in %s %s' % (pr['name'], lv, p0.cause, fault_text(p0)), files)
+                continue
             if f0: continue
+            if pr.get('shape') and (o0.decode(errors='replace') != pr['expected'][0]):
+                ctx.violation('shape-program-wrong:%s' % route, '%s %s: unforced run prints %r, definition gives %r' % (pr['name'], lv, o0[-100:], pr['expected'][0]), files); continue
             if o != o0 or (p.rc == 0) != (p0.rc == 0):
                 ctx.violation('result-changed:%s:%s' % (route, cls), '%s %s under %s: output or exit class differs from the unforced run' % (pr['name'], lv, tag), files)
     ctx.sample({'program': progs[0]['name'], 'schedule': 'ALDOR_VERIF_GC=3:1 (collect at allocations 1,4,7,...)'})
     inconc = None
     if forced < 100: inconc = 'fewer than 100 collections were forced'
+    if len(shp) < 4: inconc = 'a heap-shape program did not run: %s' % sorted(shp)
     ctx.finish(n, len(progs), 'one evaluation = one run of an executable / interpreted .ao under one collection schedule compared with its unforced run; distinct = programs',
-               extra={'programs': len(progs), 'runs_per_route': per, 'forced_collections_total': forced, 'natural_runs_that_collected': natural_gcs, 'levels': LEVELS}, inconclusive=inconc, min_eval=50)
+               extra={'programs': len(progs), 'runs_per_route': per, 'forced_collections_total': forced, 'natural_runs_that_collected': natural_gcs, 'levels': LEVELS, 'heap_shape_programs': shp}, inconclusive=inconc, min_eval=50)
 
 main_guard(main)
